@@ -13,8 +13,8 @@ enum Fault {
     MissingPath,
     DanglingSymlink,
     InvalidUtf8,
-    VersionTooNew,
-    VersionTooOld,
+    VersionTooNew(usize),
+    VersionTooOld(usize),
     /// character no Circom token contains, inserted before token `usize`
     Lexical(usize, &'static str),
     /// unmatched closer inserted before token `usize`
@@ -35,8 +35,8 @@ impl Fault {
             Fault::MissingPath => "missing_path".into(),
             Fault::DanglingSymlink => "dangling_symlink".into(),
             Fault::InvalidUtf8 => "invalid_utf8".into(),
-            Fault::VersionTooNew => "version_too_new".into(),
-            Fault::VersionTooOld => "version_too_old".into(),
+            Fault::VersionTooNew(k) => format!("version_too_new:{}", TOO_NEW[*k].join(".")),
+            Fault::VersionTooOld(k) => format!("version_too_old:{}", TOO_OLD[*k].join(".")),
             Fault::Lexical(..) => "lexical_error".into(),
             Fault::Unmatched(..) => "unmatched_closer".into(),
             Fault::DroppedSemicolon(..) => "dropped_semicolon".into(),
@@ -50,7 +50,7 @@ impl Fault {
     fn expected_ids(&self) -> &'static [&'static str] {
         match self {
             Fault::MissingPath | Fault::DanglingSymlink | Fault::InvalidUtf8 => &["P1000"],
-            Fault::VersionTooNew | Fault::VersionTooOld => &["P1003"],
+            Fault::VersionTooNew(_) | Fault::VersionTooOld(_) => &["P1003"],
             Fault::Lexical(..) | Fault::Unmatched(..) | Fault::DroppedSemicolon(..) | Fault::SecondMainSameFile => &["P1000"],
             Fault::Statement(_, _, ids) => ids,
             Fault::DuplicateParam(..) => &["CS0002"],
@@ -62,10 +62,14 @@ impl Fault {
     fn located(&self) -> bool {
         !matches!(
             self,
-            Fault::MissingPath | Fault::DanglingSymlink | Fault::InvalidUtf8 | Fault::VersionTooNew | Fault::VersionTooOld | Fault::TwoMainsTwoFiles
+            Fault::MissingPath | Fault::DanglingSymlink | Fault::InvalidUtf8 | Fault::VersionTooNew(_) | Fault::VersionTooOld(_) | Fault::TwoMainsTwoFiles
         )
     }
 }
+
+/// Versions outside the supported range 2.0.0 ..= 2.1.4 (each component above / below in turn).
+const TOO_NEW: [[&str; 3]; 7] = [["2", "1", "5"], ["2", "1", "40"], ["2", "2", "0"], ["2", "10", "0"], ["3", "0", "0"], ["3", "1", "2"], ["10", "0", "4"]];
+const TOO_OLD: [[&str; 3]; 4] = [["1", "9", "9"], ["1", "0", "4"], ["0", "5", "46"], ["1", "1", "5"]];
 
 /// Faulty statements for templates: (text, expected ids).  `One`/`Two` are helper templates appended to the file.
 const TEMPLATE_STMTS: [(&str, &[&str]); 16] = [
@@ -118,12 +122,16 @@ fn apply(p: &GenProject, target: usize, fault: &Fault) -> Option<Vec<u8>> {
             b.insert(at, 0xc3);
             Some(b)
         }
-        Fault::VersionTooNew | Fault::VersionTooOld => {
+        Fault::VersionTooNew(_) | Fault::VersionTooOld(_) => {
             // tokens: `pragma circom` a . b . c ;
             if f.printed.tokens.first().map(|t| t.as_str()) != Some("pragma circom") || toks.len() < 7 {
                 return None;
             }
-            let v = if matches!(fault, Fault::VersionTooNew) { ["2", "1", "5"] } else { ["1", "9", "9"] };
+            let v = match fault {
+                Fault::VersionTooNew(k) => TOO_NEW[*k],
+                Fault::VersionTooOld(k) => TOO_OLD[*k],
+                _ => unreachable!(),
+            };
             let mut out = String::new();
             let mut pos = 0;
             for (k, ti) in [1usize, 3, 5].iter().enumerate() {
@@ -256,7 +264,9 @@ fn case_in(ctx: &Ctx, p: &GenProject, t: &mut Tape, rec: &Rec, dir: &Path) -> Ve
     let target = p.named[t.below(p.named.len())];
     let f = &p.files[target];
     let ntok = f.r.toks.len();
-    let mut faults: Vec<Fault> = vec![Fault::MissingPath, Fault::DanglingSymlink, Fault::InvalidUtf8, Fault::VersionTooNew, Fault::VersionTooOld];
+    let mut faults: Vec<Fault> = vec![Fault::MissingPath, Fault::DanglingSymlink, Fault::InvalidUtf8];
+    faults.extend((0..TOO_NEW.len()).map(Fault::VersionTooNew));
+    faults.extend((0..TOO_OLD.len()).map(Fault::VersionTooOld));
     let positions: Vec<usize> = if ntok <= 40 {
         (1..ntok).collect()
     } else {
